@@ -1,4 +1,5 @@
 import ThunderProofs.Fed.Normalize
+import ThunderModel.Fed.Keys
 /-!
 # C06 — Federation is transparent: the gateway answers like one combined server
 
@@ -198,5 +199,34 @@ example : WT σ0 st0 := by
       · split
         · exact Or.inr ⟨_, rfl⟩
         · exact Or.inl rfl
+
+/-! ### the key fields fetched for a hop (`ThunderModel/Fed/Keys.lean`) -/
+
+open TM.Fed in
+/-- **Every service of a hop is handed every key field it declares**: the key selection of a hop contains each
+field that any of the services hopped to declares as a key of the object. -/
+theorem key_selection_covers (fields : List Nat) (isKey : Nat → Nat → Bool) (targets : List Nat) (s f : Nat)
+    (hs : s ∈ targets) (hf : f ∈ fields) (hk : isKey s f = true) : f ∈ Keys.keySel fields isKey targets :=
+  List.mem_filter.mpr ⟨hf, List.any_eq_true.mpr ⟨s, hs, hk⟩⟩
+
+open TM.Fed in
+/-- ... and nothing else: only fields of the object that some service of the hop declares (so that the
+sub-query of the service hopped from only uses key fields), in the order of the object's fields -/
+theorem key_selection_only_keys (fields : List Nat) (isKey : Nat → Nat → Bool) (targets : List Nat) :
+    (∀ f ∈ Keys.keySel fields isKey targets, f ∈ fields ∧ ∃ s ∈ targets, isKey s f = true) ∧
+      (Keys.keySel fields isKey targets).Sublist fields := by
+  refine ⟨?_, List.filter_sublist⟩
+  intro f hf
+  obtain ⟨h1, h2⟩ := List.mem_filter.mp hf
+  exact ⟨h1, List.any_eq_true.mp h2⟩
+
+open TM.Fed in
+/-- **Taking the key fields from the first service of a hop only loses a key another one needs**: service 1
+finds the object from field 2 alone, service 2 needs fields 2 and 3. -/
+theorem first_target_only_misses_key :
+    ∃ (fields : List Nat) (isKey : Nat → Nat → Bool) (targets : List Nat) (s f : Nat), s ∈ targets ∧ f ∈ fields ∧
+      isKey s f = true ∧ f ∉ Keys.keySelFirst fields isKey targets ∧ Keys.keySel fields isKey targets = [2, 3] :=
+  ⟨[2, 3, 4], fun s f => (s == 1 && f == 2) || (s == 2 && (f == 2 || f == 3)), [1, 2], 2, 3,
+    by decide, by decide, by decide, by decide, by decide⟩
 
 end TM.Properties.C06
